@@ -248,7 +248,24 @@ def _run_real(op):
     name = op['op']
     if name == 'lex':
         pat = _lexer.TRIPLE_RE if op.get('mode') == 'triples' else _lexer.PENMAN_RE
-        return _toks(_lexer.lex(_input(op), pattern=pat))
+        k = op.get('consume')
+        if k is None:
+            return _toks(_lexer.lex(_input(op), pattern=pat))
+        # the same tokens through a mixed use of the iterator protocol: a for-loop left after k
+        # tokens, then peek()/next()/bool(), then a second for-loop
+        it = _lexer.lex(_input(op), pattern=pat)
+        toks = []
+        if k > 0:
+            for tok in it:
+                toks.append(tok)
+                if len(toks) >= k:
+                    break
+        if it:
+            it.peek()
+            toks.append(it.next())
+        for tok in it:
+            toks.append(tok)
+        return _toks(toks)
     via = op.get('via') if op.get('lines') is None else None     # public wrappers take a str
     if name == 'parse':
         if via == 'public':
@@ -388,6 +405,17 @@ def _run_real(op):
     if name == 'graph_ops':
         regs = [py_graph(g) for g in op['graphs']]
         outs = []
+
+        def ask(rs):
+            # queries are pure: asking every register at some points of the sequence must not
+            # change what the final queries say (no state may survive from an earlier answer)
+            for g_ in rs:
+                try:
+                    graph_full(g_)
+                except Exception:  # noqa: BLE001
+                    pass
+        if (op.get('queries') or [0])[0]:
+            ask(regs)
         for o in op['ops']:
             k = o[0]
             if k == 'or':
@@ -414,6 +442,8 @@ def _run_real(op):
                     outs.append(j_err(e))
             elif k == 'eq':
                 outs.append(regs[o[1]] == regs[o[2]])
+            if (op.get('queries') or [0] * (len(op['ops']) + 1))[len(outs)]:
+                ask(regs)
         return {'outs': outs, 'regs': [graph_full(g) for g in regs]}
     if name == 'quote':
         return constant.quote(py_atom(op['value']))
